@@ -243,8 +243,12 @@ pub fn run(rng: &mut Rng, out: &mut Out, n: usize) {
             if v.is_empty() { v.push(7); }
             fp.extend(le(v.len(), 4)); fp.extend(&v); fp.extend(le(p.len(), 4)); fp.extend(&p);
         }
-        fp.extend(le(b.len(), 2)); fp.extend(&b); fp.push(rng.next() as u8);
-        let exp = format!("ok {} {}", hex(&fp), fp.len());
+        // partition exponent: `FriProof::new` stores trailing_zeros of a power-of-two usize (0..=63);
+        // `read_from` rejects anything else since fix 2a4d57e
+        let parts = rng.next() as u8;
+        fp.extend(le(b.len(), 2)); fp.extend(&b); fp.push(parts);
+        let exp = if parts < 64 { format!("ok {} {}", hex(&fp), fp.len()) } else { "err invalid".to_string() };
+        out.count(if parts < 64 { "fri:partitions<64" } else { "fri:partitions>=64-rejected" });
         out.case(&format!("obj fri_dec {}", hex(&fp)), &exp, || dec_show::<FriProof>(&fp, |v| hex(&v.to_bytes())));
         for _ in 0..2 {
             let m = mutate(rng, &fp);
